@@ -18,10 +18,11 @@ CHECKS = {
             'round trips) is unsat-checked for every cell in the stated domain; one path per function (no branches).', '', '6/C01'),
     'C02': ('symbolic execution of the real UBI/U/B conversion functions on a unit-quaternion rotation and symbolic cell; path exploration of ub_to_u_b under a QR contract stub; identities decided by z3/cvc5 (QF_NRA)',
             'Bounded model checking over exact reals: UBI.(U.B.h)=kappa.h, UBI rows = lattice vectors, ubi_to_cell/ubi_to_u/ubi_to_rod/ubi_to_u_b round trips for all U in SO(3) and all valid cells; '
-            'ub_to_u_b for every UB=U0.B0 and every sign pattern a QR routine may return (8 paths).', 'numpy.linalg.qr is replaced by its mathematical contract (over-approximating LAPACK sign choices).', '6/C02'),
+            'ub_to_u_b for every UB=U0.B0 and every sign pattern a QR routine may return (8 paths); history independence: a conversion preceded by the same conversion with a cell whose first length differs by a factor 1+dl, |dl|<=1e-4, returns the result of its own cell.', 'numpy.linalg.qr is replaced by its mathematical contract (over-approximating LAPACK sign choices).', '6/C02'),
     'C13': ('symbolic execution of the real strain functions on symbolic cells (second cell = strained lattice) and a unit-quaternion rotation; rational-function identities decided by z3/cvc5 (QF_NRA)',
             'Bounded model checking over exact reals: both strain pairs are mutual inverses, equal the harness oracle sym(B0.inv(B))-I resp. sym(A.inv(A0))-I, '
-            'epsilon_to_b yields a B matrix (upper triangular, positive diagonal for |eps|<=0.1), ubi_to_u_and_eps returns (U, eps) for the module\'s own UBI.',
+            'epsilon_to_b yields a B matrix (upper triangular, positive diagonal for |eps|<=0.1), ubi_to_u_and_eps returns (U, eps) for the module\'s own UBI; '
+            'the functions leave array arguments unchanged and a repeated call with the same array object returns the same result; results follow in-place changes of the cell list (history group).',
             'Known finding (pinned): tools.ubi_to_u_and_eps returns 2*pi*(I+eps)-I.', '6/C13'),
     'C16': ('symbolic execution of the real FormFactor on a symbolic s; transcendental exp decided by cvc5 (QF_NRAT) for every real s in [0,2]',
             'Bounded model checking: per element 4 obligations (formula equals live table, |f(0)-Z|<=0.1, f>0 on [0,2], df/ds<0 on (0,2]) decided for all real s, '
@@ -36,7 +37,7 @@ CHECKS = {
             'Model checking of all 237 tables: group axioms with a solver variable ranging over the table, metric preservation for every conforming cell at once; Laue order, centring count and name lookup are finite computations on the live tables.', '', '6/C04'),
     'C09': ('symbolic execution of the four real omega solvers (paths: none/two solutions, sign forks); diffraction-condition identities and completeness facts decided by z3/cvc5 (QF_NRA)',
             'Bounded model checking over exact reals: for every g direction, theta in (0.25,75) deg and tilts up to 0.5 rad each returned (omega,eta) satisfies the three component equations under the module\'s own matrix; '
-            'completeness via discriminant sign and affine structure of the condition; tth = 2 asin(lambda sintl) = tth2.', 'find_omega_quart is analysed with the proved summary of its callee quart_to_omega.', '6/C09'),
+            'completeness via discriminant sign and affine structure of the condition; tth = 2 asin(lambda sintl) = tth2; history: every call under test is preceded by calls of the tilted solvers with other tilts (chi = wedge = 0), and the tilted solvers are additionally analysed with wedge = 0 exactly after such calls.', 'find_omega_quart is analysed with the proved summary of its callee quart_to_omega.', '6/C09'),
     'C20': ('symbolic execution of the real input checks with numpy.allclose as its tolerance formula; accept/reject obligations as path (in)feasibility decided by z3/cvc5 (QF_NRA); switch semantics by enumeration of assigned objects over a symbolic pre-state',
             'Bounded model checking: every proper rotation perturbed by <=1e-7 per entry is accepted, improper rotations and single-entry perturbations of 1e-3..1 are rejected at every guarded entry point, Euler-angle and UBI checks reject exactly the invalid inputs, '
             'switch accepts only True/False.', '', '6/C20'),
@@ -58,10 +59,10 @@ CHECKS = {
             'Bounded model checking over exact reals: all 7 crystal systems, all pairs of operators, all pairs of proper rotations, all conforming cells. The obligation that the arccos argument lies in [-1,1] is decided through sum-of-squares certificates (identities on the real expressions plus two abstract inequalities).',
             'ndarray.clip is modelled as the identity, justified by that obligation.', '6/C12'),
     'C17': ('execution of the real CIFread/remove_esd/PDBread on files whose numeric fields are opaque tokens mapped to solver reals by float()/int() contract stubs; all string handling of the code runs for real; field-by-field equalities checked with z3 (linear real arithmetic)',
-            'Bounded checking: 90 CIF configurations and 3 PDB files with 2 atoms each, every numeric value symbolic; verdicts are equalities between solver terms. String-theory solving is not used: the decisive symbolic part is the numeric content, the structural part is enumerated.',
+            'Bounded checking: 180 CIF reads (30 configurations x a sequence of 6 atom-type-loop variants that contains every ordered pair of variants, read by fresh readers in one process with alternating element sets: reader history) and 3 PDB files with 2 atoms each, every numeric value symbolic; verdicts are equalities between solver terms. String-theory solving is not used: the decisive symbolic part is the numeric content, the structural part is enumerated.',
             'PyCifRW and Python\'s float grammar are outside the claim.', '6/C17'),
     'C19': ('execution of the real parameters class with symbolic values and contract stubs for str/float/int (nearest-double function with rounding contract); path exploration of dumbtypecheck; value/type obligations decided by z3 (LIA/LRA with an uninterpreted rounding function); bounded enumeration of API call sequences against a dictionary model',
-            'Bounded model checking: save/load and dumbtypecheck for every integer, every real standing for a float and opaque strings; all call sequences of length <= 3 over 17 concrete operations with symbolic values (about 7000 sequences).', 'Bit-exact float round trip is an assumed contract.', '6/C19'),
+            'Bounded model checking: save/load and dumbtypecheck for every integer, every real standing for a float and opaque strings; all call sequences of length <= 3 over 20 operations with symbolic values (about 11000 sequences), the observers (get, get_parameters, varylist, get_variable_values) compared with the dictionary model after every call; a stored value used as a condition forks the sequence (value == 0 / != 0).', 'Bit-exact float round trip is an assumed contract.', '6/C19'),
     'C18': ('path exploration of the real reduce_cell (search range uvw=1) on symbolic cells ranging over boxes: argsort as a merge sort with solver-decided comparisons, coplanarity tests as path decisions; unimodularity, metric and minimality obligations decided by z3/cvc5 (QF_NRA)',
             'Bounded model checking over three boxes of cells and both modules: selected combinations are concrete on each path; metric equality, unimodularity and minimality of the first two vectors are decided for every cell of the box. '
             'The default search range uvw=3 (sorting 216 symbolic norms) is outside the bound.', 'Known finding (pinned): rows/columns mix-up in the final a_to_cell step, both modules.', '6/C18'),
